@@ -146,12 +146,21 @@ def h_event(my_prio: int, was_on: bool,
     return vkopf.verdict(ok)
 
 
-def h_keepalive(lifetime: int, j0: int, j1: int, j2: int, cancel_after: int) -> bool:
+def h_keepalive(lifetime: int, j0: int, j1: int, j2: int, cancel_after: int, lat: int, cancel_at: int) -> bool:
     """
     pre: lifetime >= 2 and 5 <= j0 <= 10 and 5 <= j1 <= 10 and 5 <= j2 <= 10 and 0 <= cancel_after <= 1
+    pre: 0 <= lat <= 3 and 0 <= cancel_at <= 3
     post: _ == True
     """
+    return keepalive_impl(lifetime, j0, j1, j2, cancel_after, lat, cancel_at)
+
+
+def keepalive_impl(lifetime, j0, j1, j2, cancel_after, lat, cancel_at):
+    # (no contract of its own: C20 h_withdraw calls it, too, and a callee's contract would swallow its failures there)
     vkopf.begin_path()
+    early = vkopf.cell().get('early', False)     # the operator stops at an arbitrary early instant, requests have a latency
+    if not early:
+        lat = cancel_at = 0
     loop = SymLoop()
     settings = configuration.OperatorSettings()
     settings.peering.name = 'default'
@@ -163,9 +172,11 @@ def h_keepalive(lifetime: int, j0: int, j1: int, j2: int, cancel_after: int) -> 
     enough = {}
 
     async def fake_patch_obj(*, settings, resource, namespace, name, patch, logger, silent=False):
-        touches.append((loop.time(), copy.copy(dict(patch)['status']['me'])))
+        touches.append((loop.time(), copy.copy(dict(patch)['status']['me'])))     # applied by the server ...
         if len(touches) >= 3 and 'ev' in enough:
             enough['ev'].set()
+        if lat > 0:
+            await asyncio.sleep(lat)                                              # ... the response arrives later
         return {}, None
 
     def fake_randint(a, b):
@@ -179,9 +190,12 @@ def h_keepalive(lifetime: int, j0: int, j1: int, j2: int, cancel_after: int) -> 
             with shimdt.installed(peering):
                 enough['ev'] = asyncio.Event()
                 task = asyncio.create_task(peering.keepalive(namespace=None, resource=RESOURCE, identity=ME, settings=settings))
-                await enough['ev'].wait()               # three renewals observed (no polling against symbolic durations)
-                if cancel_after > 0:
-                    await asyncio.sleep(cancel_after)
+                if early:
+                    await asyncio.sleep(cancel_at)
+                else:
+                    await enough['ev'].wait()           # three renewals observed (no polling against symbolic durations)
+                    if cancel_after > 0:
+                        await asyncio.sleep(cancel_after)
                 task.cancel()
                 await asyncio.gather(task, return_exceptions=True)
         finally:
@@ -189,19 +203,23 @@ def h_keepalive(lifetime: int, j0: int, j1: int, j2: int, cancel_after: int) -> 
             peering.patching.patch_obj = orig[0]
             peering.random = _random
     loop.run(main())
-    ok = len(touches) >= 2
+    ok = len(touches) >= 2 or (early and not touches)
     live = [t for t in touches if t[1] is not None]
     # renewed before it expires: consecutive keep-alives closer than the lifetime, but not busy-looping
     for (ta, ra), (tb, rb) in zip(live, live[1:]):
-        if not (1 <= tb - ta < lifetime):
-            ok = False
+        if not (1 <= tb - ta < lifetime) and (not early or lifetime >= 11):
+            ok = False          # (with request latency only lifetimes above the 5..10 s allowance can be renewed in time)
         if ra['lifetime'] != lifetime or ra['priority'] != 7:
             ok = False
     # removed on graceful exit: the last write deletes the record
-    if touches[-1][1] is not None:
+    if not touches:
+        pass
+    elif touches[-1][1] is not None:
         ok = False
     else:
         vkopf.witness('withdrawn')
+        if early and len(touches) == 2:
+            vkopf.witness('withdrawn_during_first_request')
     return vkopf.verdict(ok)
 
 
@@ -362,5 +380,6 @@ def obligations():
     obs += split(Ob('h_event', {}, timeout=2400, tiers=('thorough',)), a_present=[True], b_present=[True], a_has_life=B, a_has_seen=B,
                  b_has_life=B, b_has_seen=B, own_present=B)
     obs.append(Ob('h_keepalive', {}, timeout=1500, twins=['withdrawn']))
+    obs.append(Ob('h_keepalive', {'early': True}, timeout=1500, twins=['withdrawn_during_first_request']))
     obs += split(Ob('h_two', {'lifetime': 12}, timeout=3400, path_timeout=300, tiers=('thorough',), twins=['killed', 'graceful']), kill0=[False, True])
     return obs
